@@ -11,7 +11,7 @@ EXTERNAL_PROP_SITES = {
 }
 
 
-def rule_book(c, prog):
+def rule_book(c, prog, reader_rule=True):
     R = "C12.book"
     c.rule(R, "unique_ids and instances change only inside inner_insert / inner_remove (and construction), so every entry to / exit from a DOM passes the bookkeeping; outside rbx_dom_weak nobody replaces or structurally edits the property map of an instance that is already in a DOM")
     muts = U.all_mutations(prog, [U.F_UIDS, U.F_INSTANCES, U.F_PROPS])
@@ -39,6 +39,8 @@ def rule_book(c, prog):
         for i, cal, t in U.calls_in(fn, r"WeakDom::inner_(insert|remove)$"):
             if not path.startswith(DOM):
                 c.violation(R, f"caller|{path}", f"{path} calls {cal} from outside rbx_dom_weak::dom", t.get("sp", ""))
+    if not reader_rule:
+        return
     # reader rule
     n = 0
     for fn, cls, m in muts[U.F_PROPS]:
